@@ -1018,3 +1018,30 @@ def fill_loop(ctx):
                           'source that still has data is taken for the end of the data' % (g.key, h.key, ctext, why))
     if n == 0:
         ctx.anchor_missing('read helper whose count is compared with a required length')
+
+
+@rule('NO-READAHEAD', ['C16'], floor=1)
+def no_readahead(ctx):
+    """No reader of the crate puts a read-ahead buffer between itself and the caller's source: wrapping the
+    source in `BufReader` (or an equivalent `take`/`read_to_end` on it) pulls bytes that belong to whatever
+    follows the compressed stream and loses them when the reader is dropped. Who-may-call rule over the
+    whole crate (tests excluded): there is no call to BufReader::new / BufReader::with_capacity at all."""
+    F = ctx.facts
+    hits = []
+    for f in F.fns:
+        for bi, t, c in f.calls():
+            if c.is_('BufReader::new', 'BufReader::with_capacity'):
+                hits.append((f, bi))
+        # a field or local of type BufReader<..> is the same thing
+    for p, a in F.adts.items():
+        for v in a.get('variants', [])[:1]:
+            for fl in v['fields']:
+                if 'BufReader<' in fl['ty']:
+                    hits.append((None, '%s.%s' % (p, fl['name'])))
+    if hits:
+        f, where = hits[0]
+        ctx.violation('crate:no-read-ahead-buffer', f.loc(where) if f is not None else str(where),
+                      'a BufReader wraps a decoder source (%s): after the end of the compressed stream the source is positioned up to a buffer '
+                      'size past it' % (f.key if f is not None else where))
+    else:
+        ctx.ok('crate:no-read-ahead-buffer', '-', 'no BufReader construction and no BufReader-typed field in the crate (%d functions, %d types scanned)' % (len(F.fns), len(F.adts)))
